@@ -27,9 +27,12 @@ type zzBstRes struct {
 	Failure   string ` + "`json:\"failure\"`" + `
 }
 
-func zzBstRun[T Number](name string, dom []T, maxLen int) zzBstRes {
+func zzBstRun[T Number](name string, dom []T, maxLen int, queries bool) zzBstRes {
 	res := zzBstRes{Type: name}
-	nops := 2*len(dom) + 2 // Insert(v), Remove(v) for each v; Min(); Max()
+	nops := 2 * len(dom) // Insert(v), Remove(v) for each v
+	if queries {
+		nops += 2 // Min(); Max()
+	}
 	hist := make([]int, maxLen)
 	extremes := func(count map[T]int) (mn, mx T) {
 		first := true
@@ -136,9 +139,14 @@ func TestZZBstBounded(t *testing.T) {
 	maxLen := 5
 	fmt.Sscan(os.Getenv("VERIF_BST_LEN"), &maxLen)
 	var out []zzBstRes
-	out = append(out, zzBstRun[int8]("int8", []int8{-128, -1, 100, 127}, maxLen))
-	out = append(out, zzBstRun[int64]("int64", []int64{-9223372036854775808, -1, 9007199254740993, 9223372036854775807}, maxLen))
-	out = append(out, zzBstRun[float64]("float64", []float64{-1.5e300, 0, 2.5, 1.5e300}, maxLen))
+	// family 1: four values (type extremes), queries are operations of the history
+	out = append(out, zzBstRun[int8]("int8", []int8{-128, -1, 100, 127}, maxLen, true))
+	out = append(out, zzBstRun[int64]("int64", []int64{-9223372036854775808, -1, 9007199254740993, 9223372036854775807}, maxLen, true))
+	out = append(out, zzBstRun[float64]("float64", []float64{-1.5e300, 0, 2.5, 1.5e300}, maxLen, true))
+	// family 2: three values, Insert/Remove only, two steps longer: deep enough for removals that follow a
+	// two-children removal among duplicates (everything observable is still compared at the end of every history)
+	out = append(out, zzBstRun[int8]("int8/3-values", []int8{2, 4, 7}, maxLen+2, false))
+	out = append(out, zzBstRun[float64]("float64/3-values", []float64{-0.5, 0, 2.5}, maxLen+2, false))
 	b, _ := json.Marshal(out)
 	os.WriteFile(os.Getenv("VERIF_REPLAY_OUT"), b, 0o644)
 }
